@@ -134,6 +134,11 @@ func RunC19(c *Ctx) {
 				buf := dst[:3 : len(d)+3]
 				return func() error { _, _, e := rjson.ReadStringBytes(d, buf); return e }, true
 			}},
+			{"ReadStringBytes(roomy dst)", func(d []byte) (func() error, bool) {
+				// more spare capacity than required, at an odd offset
+				big := make([]byte, 5, 3*len(d)+64)
+				return func() error { _, _, e := rjson.ReadStringBytes(d, big); return e }, true
+			}},
 			{"UnescapeStringContent", func(d []byte) (func() error, bool) {
 				p0 := refmodel.SkipWS(d, 0)
 				_, end, ok := refmodel.ScanString(d, p0)
